@@ -1,10 +1,38 @@
 import MakoModel.Basic.Wire
 import MakoModel.Path.Model
+import MakoModel.Path.History
 /-! Driver handler for the path model: `path <fn> <args…>` -/
 namespace MakoModel.Path.Drv
 open MakoModel.Wire
 
+def decOps : List String → Option (List Op)
+  | [] => some []
+  | "g" :: u :: rest => do let u ← decStr u; let r ← decOps rest; pure (.get u :: r)
+  | "h" :: u :: rest => do let u ← decStr u; let r ← decOps rest; pure (.has u :: r)
+  | "a" :: f :: rest => do let f ← decStr f; let r ← decOps rest; pure (.add f :: r)
+  | "d" :: f :: rest => do let f ← decStr f; let r ← decOps rest; pure (.del f :: r)
+  | _ => none
+
+def encOut : Out → String
+  | .notFound => "N"
+  | .rejected => "R"
+  | .served s => "S" ++ encStr s
+  | .answer b => if b then "T" else "F"
+  | .none => "_"
+
+/-- `hist <fsChecks> <n> d1 … dn <m> f1 … fm op…`: a whole history on the lookup state machine -/
+def hist (fs : String) (rest : List String) : Option String := do
+  let fs ← decBool fs
+  let n ← rest.head?.bind String.toNat?
+  let ds ← ((rest.drop 1).take n).mapM decStr
+  let rest := rest.drop (1 + n)
+  let m ← rest.head?.bind String.toNat?
+  let fl ← ((rest.drop 1).take m).mapM decStr
+  let ops ← decOps (rest.drop (1 + m))
+  pure (";".intercalate ((runFrom { dirs := ds, fsChecks := fs } (LState.init fl) ops).map encOut))
+
 def handle : Handler
+  | "hist" :: fs :: rest => hist fs rest
   | ["normpath", p] => do let p ← decStr p; pure (encStr (normpath p))
   | ["join", a, b] => do let a ← decStr a; let b ← decStr b; pure (encStr (joinPath a b))
   | ["dirname", p] => do let p ← decStr p; pure (encStr (dirname p))
